@@ -4,6 +4,7 @@ import (
 	"fmt"
 	"math/rand"
 	"os"
+	"runtime"
 	"runtime/debug"
 	"syscall"
 )
@@ -35,6 +36,11 @@ func RunWorker(a WorkerArgs) int {
 		_ = syscall.Setrlimit(syscall.RLIMIT_AS, &lim)
 	}
 	debug.SetTraceback("all")
+	if chk.Procs > 0 {
+		runtime.GOMAXPROCS(chk.Procs)
+	} else {
+		runtime.GOMAXPROCS(2)
+	}
 	var journal *os.File
 	if a.Journal != "" {
 		f, err := os.OpenFile(a.Journal, os.O_CREATE|os.O_WRONLY|os.O_APPEND, 0o644)
